@@ -258,7 +258,13 @@ pub enum Op {
     SGetOrInsertWith { s: u8, k: KeySel },
     SRetain { s: u8, pred: Pred },
     SDrain { s: u8, consume: Consume },
-    SDrainFilter { s: u8, pred: Pred, consume: Consume },
+    SDrainFilter {
+        s: u8,
+        pred: Pred,
+        consume: Consume,
+        #[serde(default)]
+        drop_panic: Option<u32>,
+    },
     SIntoIter { s: u8, consume: Consume, new_cap: usize },
     SExtend {
         s: u8,
@@ -358,6 +364,9 @@ impl Op {
 pub struct Fault {
     pub at: usize,
     pub nth: u64,
+    /// `Some(Drop)`: `nth` counts only destructor runs of stored objects inside the operation
+    #[serde(default, skip_serializing_if = "Option::is_none")]
+    pub site: Option<crate::ctx::Site>,
 }
 
 #[derive(Clone, Debug, PartialEq, Serialize, Deserialize)]
